@@ -146,7 +146,7 @@ def norm_wsgi(ev):
     body: List[Any] = []
     for x in ev:
         if x[0] in ("body", "write"):
-            body.extend(_items_of(x[1]) if not isinstance(x[1], tuple) else [x[1]])
+            body.extend([x[1]] if (isinstance(x[1], tuple) or _is_slice(x[1])) else _items_of(x[1]))
     return code, headers, body
 
 
